@@ -1038,3 +1038,305 @@ Proof.
   exists zr. rewrite term_eq. cbn [app]. rewrite E, flat_one. repeat split; auto.
   intros ->. discriminate Z2.
 Qed.
+
+(* ================================================================== 5. the specification on the reference run *)
+Lemma take_while_app {A} (f : A -> bool) rl ml :
+  forallb f rl = true -> match ml with [] => True | x :: _ => f x = false end -> take_while f (rl ++ ml) = rl.
+Proof.
+  induction rl as [|x rl IH]; cbn [forallb app take_while]; intros H1 H2.
+  - destruct ml as [|y ml]; [reflexivity|]. cbn. rewrite H2. reflexivity.
+  - apply andb_true_iff in H1 as [Hx Hr]. rewrite Hx, IH; auto.
+Qed.
+
+Lemma skipn_app_len {A} (a b : list A) : skipn (length a) (a ++ b) = b.
+Proof. induction a; cbn; auto. Qed.
+
+Lemma msg_not_rcpt x : is_msg_letter x = true -> is_rcpt_letter x = false.
+Proof.
+  unfold is_msg_letter, is_rcpt_letter, L_K, L_Z, L_D, L_r, L_s, L_h. intros H.
+  repeat (apply orb_true_iff in H; destruct H as [H|H]); apply N.eqb_eq in H; subst; reflexivity.
+Qed.
+
+(** building [spec_letters] from a split of the letters *)
+Lemma spec_letters_intro i rl ml net :
+  forallb is_rcpt_letter rl = true -> forallb is_msg_letter ml = true -> length ml <= 1 -> rl ++ ml <> [] ->
+  length rl <= length (i_rcpts i) ->
+  (rl = [] \/ mail_accepted (i_script i) = true) -> letters_match_from 1 (i_script i) rl = true ->
+  (existsb (N.eqb L_r) rl = true \/ rl = [] -> length ml = 1) ->
+  (existsb (N.eqb L_K) ml = true ->
+     match reply_code (reply_at (length (i_rcpts i) + 2) (i_script i)) with Some c => is_2xx c | None => false end = true
+     /\ length rl = length (i_rcpts i) /\ existsb (N.eqb L_r) rl = true) ->
+  cmds_ok i rl net = true ->
+  spec_letters i (rl ++ ml) net = true.
+Proof.
+  intros Hrl Hml Hlen Hne Hn Hmail Hmatch Hpres HK Hcmd. unfold spec_letters.
+  assert (Htw : take_while is_rcpt_letter (rl ++ ml) = rl).
+  { apply take_while_app; auto. destruct ml as [|x ml]; auto. cbn in Hml. apply andb_true_iff in Hml as [Hx _].
+    apply msg_not_rcpt; exact Hx. }
+  rewrite Htw, skipn_app_len. repeat (apply andb_true_iff; split); auto.
+  - destruct (rl ++ ml) eqn:E; [congruence|reflexivity].
+  - apply Nat.leb_le; exact Hn.
+  - apply Nat.leb_le; exact Hlen.
+  - destruct Hmail as [->|H]; [reflexivity|]. rewrite H. apply orb_true_r.
+  - destruct (existsb (N.eqb L_r) rl) eqn:Er.
+    + cbn. rewrite (Hpres (or_introl eq_refl)). reflexivity.
+    + destruct rl; cbn; [rewrite (Hpres (or_intror eq_refl))|]; reflexivity.
+  - destruct (existsb (N.eqb L_K) ml) eqn:EK; [|reflexivity]. cbn [negb orb].
+    destruct (HK eq_refl) as (H1 & H2 & H3). rewrite H1, H3, H2, Nat.eqb_refl. reflexivity.
+Qed.
+
+Lemma cmds_ok_intro i rl j p t :
+  length rl <= j -> j <= length (i_rcpts i) -> In p (mail_params i) -> In t (tails i) ->
+  (fst t = true -> existsb (N.eqb L_r) rl = true /\ j = length (i_rcpts i)) ->
+  cmds_ok i rl (mail_line i p ++ concat (map rcpt_line (firstn j (i_rcpts i))) ++ snd t) = true.
+Proof.
+  intros H1 H2 Hp Ht Hf. unfold cmds_ok. apply orb_true_iff. right.
+  apply existsb_exists. exists j. split; [apply in_seq; lia|].
+  apply andb_true_iff. split; [apply Nat.leb_le; exact H1|].
+  apply existsb_exists. exists p. split; [exact Hp|].
+  apply existsb_exists. exists t. split; [exact Ht|].
+  apply andb_true_iff. split; [apply bytes_eqb_eq; reflexivity|].
+  destruct t as [tf tb]. cbn [fst snd] in *. destruct tf; [|reflexivity].
+  destruct (Hf eq_refl) as [Ha Hb]. rewrite Ha, Hb, Nat.eqb_refl. reflexivity.
+Qed.
+
+Lemma tails_in i d q : q = [] \/ q = s_QUIT ->
+  In (match d with None => false | Some _ => true end, main_tail i d ++ q) (tails i).
+Proof.
+  intros Hq. unfold tails, main_tail.
+  destruct d as [[|]|]; destruct Hq as [-> | ->]; rewrite ?app_nil_r, <- ?app_assoc; cbn [In app]; tauto.
+Qed.
+
+(** the letters of the three call sites *)
+Lemma rcpt_letter_cases c : rcpt_letter c = if is_2xx c then L_r else if is_4xx c then L_s else L_h.
+Proof. unfold rcpt_letter, cr_letter, cr_idx. destruct (is_2xx c); [reflexivity|]. destruct (is_4xx c); reflexivity. Qed.
+Lemma mail_letter_cases c : mail_letter c = if is_2xx c then SP else if is_4xx c then L_Z else L_D.
+Proof. unfold mail_letter, cr_letter, cr_idx. destruct (is_2xx c); [reflexivity|]. destruct (is_4xx c); reflexivity. Qed.
+Lemma dot_letter_cases c : dot_letter c = if is_2xx c then L_K else if is_4xx c then L_Z else L_D.
+Proof. unfold dot_letter, cr_letter, cr_idx. destruct (is_2xx c); [reflexivity|]. destruct (is_4xx c); reflexivity. Qed.
+
+Lemma rcpt_letter_is_rcpt c : is_rcpt_letter (rcpt_letter c) = true.
+Proof. rewrite rcpt_letter_cases. destruct (is_2xx c); [reflexivity|]. destruct (is_4xx c); reflexivity. Qed.
+Lemma rcpt_letter_r c : N.eqb L_r (rcpt_letter c) = is_2xx c.
+Proof. rewrite rcpt_letter_cases. destruct (is_2xx c); [reflexivity|]. destruct (is_4xx c); reflexivity. Qed.
+Lemma dot_letter_is_msg c : is_msg_letter (dot_letter c) = true.
+Proof. rewrite dot_letter_cases. destruct (is_2xx c); [reflexivity|]. destruct (is_4xx c); reflexivity. Qed.
+Lemma dot_letter_K c : N.eqb L_K (dot_letter c) = is_2xx c.
+Proof. rewrite dot_letter_cases. destruct (is_2xx c); [reflexivity|]. destruct (is_4xx c); reflexivity. Qed.
+Lemma mail_letter_is_msg c : is_2xx c = false -> is_msg_letter (mail_letter c) = true /\ N.eqb L_K (mail_letter c) = false.
+Proof. intros H. rewrite mail_letter_cases, H. destruct (is_4xx c); split; reflexivity. Qed.
+
+Lemma classes_cover c : 200 <= c <= 599 -> is_3xx c = false ->
+  letter_matches (rcpt_letter c) c = true.
+Proof.
+  intros Hc H3. rewrite rcpt_letter_cases. unfold letter_matches.
+  destruct (is_2xx c) eqn:E2; [cbn; reflexivity|]. destruct (is_4xx c) eqn:E4; [cbn; reflexivity|].
+  assert (E5 : is_5xx c = true) by (unfold is_2xx, is_3xx, is_4xx, is_5xx in *; lia).
+  rewrite E5. reflexivity.
+Qed.
+
+Lemma take_reply_cont_range scr c : take_reply scr = RBrokenCont c -> 200 <= c <= 599.
+Proof.
+  unfold take_reply. destruct scr as [|[l| | | | |] scr]; try discriminate.
+  destruct (line_code l) as [c'|] eqn:E; [|discriminate].
+  apply line_code_range in E. destruct (is_cont l); [destruct (skip_cont scr)|]; intros H; inversion H; subst; exact E.
+Qed.
+
+Lemma lm_from_S rl : forall idx scr c m rest, take_reply scr = RComplete c m rest ->
+  letters_match_from (S idx) scr rl = letters_match_from idx rest rl.
+Proof.
+  induction rl as [|l rl IH]; intros idx scr c m rest H; cbn [letters_match_from]; [reflexivity|].
+  cbn [reply_at]. rewrite H. rewrite (IH (S idx) scr c m rest H). reflexivity.
+Qed.
+
+(** the RCPT TO phase of the reference run satisfies the letter clauses, outside the classes
+    "3xx reply" and "exit inside an open report after an accepted recipient" *)
+Lemma rcpts_ok k : forall acc scr, scan_3xx k scr = false -> merge_scan k acc scr = false ->
+  match ref_rcpts k acc scr with
+  | RPDone ls a rest' =>
+      length ls = k /\ forallb is_rcpt_letter ls = true /\ letters_match_from 0 scr ls = true
+      /\ a = acc || existsb (N.eqb L_r) ls /\ (forall m, reply_at (k + m) scr = reply_at m rest')
+  | RPExit ls d =>
+      d < k /\ exists rl ml, ls = rl ++ ml /\ forallb is_rcpt_letter rl = true /\ letters_match_from 0 scr rl = true
+        /\ length rl <= S d /\ (ml = [L_Z] \/ (ml = [] /\ rl <> [] /\ acc || existsb (N.eqb L_r) rl = false))
+  end.
+Proof.
+  induction k as [|k IH]; intros acc scr H3 HM; cbn [ref_rcpts].
+  - repeat split; auto. rewrite orb_false_r. reflexivity.
+  - cbn [scan_3xx merge_scan] in H3, HM.
+    destruct (take_reply scr) as [c m rest| |c] eqn:ET.
+    + apply orb_false_iff in H3 as [H3c H3r]. specialize (IH (acc || is_2xx c) rest H3r HM).
+      pose proof (take_reply_code_range _ _ _ _ ET) as Hc.
+      assert (Hhead : forall ls, letters_match_from 0 rest ls = true -> letters_match_from 0 scr (rcpt_letter c :: ls) = true).
+      { intros ls H. cbn [letters_match_from reply_at]. rewrite ET. cbn [reply_code].
+        rewrite classes_cover by assumption. rewrite (lm_from_S ls 0 scr c m rest ET). exact H. }
+      destruct (ref_rcpts k (acc || is_2xx c) rest) as [ls a rest'|ls d].
+      * destruct IH as (L & F & M & A & R). repeat split.
+        { cbn. lia. } { cbn [forallb]. rewrite rcpt_letter_is_rcpt. exact F. } { apply Hhead, M. }
+        { rewrite A. cbn [existsb]. rewrite rcpt_letter_r, orb_assoc. reflexivity. }
+        { intros m0. cbn [Nat.add reply_at]. rewrite ET. apply R. }
+      * destruct IH as (D & rl & ml & E & F & M & L & Hml). split; [lia|].
+        exists (rcpt_letter c :: rl), ml. repeat split.
+        { rewrite E. reflexivity. } { cbn [forallb]. rewrite rcpt_letter_is_rcpt. exact F. } { apply Hhead, M. } { cbn. lia. }
+        destruct Hml as [->|(-> & _ & Hacc)]; [left; reflexivity|right]. split; [reflexivity|]. split; [discriminate|].
+        cbn [existsb]. rewrite rcpt_letter_r, orb_assoc. exact Hacc.
+    + split; [lia|]. exists [], [L_Z]. repeat split; auto; try (cbn; lia).
+    + pose proof (take_reply_cont_range _ _ ET) as Hc. split; [lia|].
+      assert (Hm : letters_match_from 0 scr [rcpt_letter c] = true).
+      { cbn [letters_match_from reply_at]. rewrite ET. cbn [reply_code]. rewrite classes_cover by assumption. reflexivity. }
+      destruct (is_2xx c) eqn:E2.
+      * exists [rcpt_letter c], [L_Z]. repeat split; auto. cbn [forallb]. rewrite rcpt_letter_is_rcpt. reflexivity.
+      * exists [rcpt_letter c], []. repeat split; auto.
+        { cbn [forallb]. rewrite rcpt_letter_is_rcpt. reflexivity. }
+        right. split; [reflexivity|]. split; [discriminate|]. cbn [existsb]. rewrite rcpt_letter_r, E2.
+        cbn [negb] in HM. rewrite andb_true_r in HM. rewrite HM. reflexivity.
+Qed.
+
+Lemma pipel_spec i : has (i_ext i) 2 = pipel i. Proof. reflexivity. Qed.
+
+Lemma cmds_env i rl j d q :
+  q = [] \/ q = s_QUIT ->
+  let jj := if pipel i then length (i_rcpts i) else j in
+  length rl <= jj -> jj <= length (i_rcpts i) ->
+  (d <> None -> existsb (N.eqb L_r) rl = true /\ jj = length (i_rcpts i)) ->
+  cmds_ok i rl (env_sent i j ++ main_tail i d ++ q) = true.
+Proof.
+  intros Hq jj H1 H2 Hd. unfold env_sent. fold jj. rewrite <- app_assoc.
+  apply (cmds_ok_intro i rl jj (actual_params i) (match d with None => false | Some _ => true end, main_tail i d ++ q)); auto.
+  - apply actual_params_in.
+  - apply tails_in; exact Hq.
+  - cbn [fst]. destruct d; [intros _; apply Hd; discriminate|discriminate].
+Qed.
+
+(** one message report, no recipient report *)
+Lemma spec_msg_only i x j q : q = [] \/ q = s_QUIT ->
+  is_msg_letter x = true -> N.eqb L_K x = false -> (if pipel i then True else j = 0) ->
+  spec_letters i [x] (env_sent i j ++ main_tail i None ++ q) = true.
+Proof.
+  intros Hq Hx HK Hj. apply (spec_letters_intro i [] [x]).
+  - reflexivity.
+  - cbn [forallb]. rewrite Hx. reflexivity.
+  - cbn. lia.
+  - discriminate.
+  - cbn. lia.
+  - left; reflexivity.
+  - reflexivity.
+  - reflexivity.
+  - cbn [existsb]. rewrite HK. discriminate.
+  - apply cmds_env; auto; cbn [length]; try lia.
+    + destruct (pipel i); lia.
+    + intros H; congruence.
+Qed.
+
+Lemma ZK : N.eqb L_K L_Z = false. Proof. reflexivity. Qed.
+Lemma Zmsg : is_msg_letter L_Z = true. Proof. reflexivity. Qed.
+
+Theorem ref_main_spec i q : i_rcpts i <> [] -> known_class i = false -> q = [] \/ q = s_QUIT ->
+  let '(ls, j, d) := ref_main i in
+  spec_letters i ls (env_sent i j ++ main_tail i d ++ q) = true.
+Proof.
+  intros Hne Hk Hq. unfold known_class in Hk.
+  repeat (apply orb_false_iff in Hk; destruct Hk as [Hk ?]).
+  rename Hk into Hdup, H into Hml354, H0 into Hlong, H1 into H3xx, H2 into Hmerge.
+  clear Hlong.
+  unfold class_dup in Hdup. unfold class_merge in Hmerge. unfold class_3xx in H3xx. unfold class_ml354 in Hml354.
+  rewrite pipel_spec in Hdup.
+  set (n := length (i_rcpts i)) in *.
+  assert (Hn : n <> 0) by (subst n; destruct (i_rcpts i); [congruence|discriminate]).
+  unfold ref_main, ref_env. fold n.
+  destruct (take_reply (i_script i)) as [c m rest| |c] eqn:ET.
+  - destruct (is_2xx c) eqn:E2; cbn [negb].
+    + (* MAIL FROM accepted *)
+      cbn [andb] in Hmerge, H3xx. clear Hdup.
+      pose proof (rcpts_ok n false rest H3xx Hmerge) as HR. clear H3xx Hmerge.
+      assert (Hacc : mail_accepted (i_script i) = true) by (unfold mail_accepted; rewrite ET; exact E2).
+      destruct (ref_rcpts n false rest) as [ls a rest'|ls d].
+      * destruct HR as (L & F & M & A & R). cbn [orb] in A.
+        assert (M1 : letters_match_from 1 (i_script i) ls = true) by (rewrite (lm_from_S ls 0 _ c m rest ET); exact M).
+        assert (Lne : ls <> []) by (intros ->; apply Hn; symmetry; exact L).
+        assert (Lle : length ls <= n) by (rewrite L; constructor).
+        assert (Hjj : forall j, (if pipel i then n else j) = n -> length ls <= (if pipel i then n else j)
+                                /\ (if pipel i then n else j) <= n).
+        { intros j ->. split; [exact Lle|constructor]. }
+        assert (Hjn : (if pipel i then n else n) = n) by (destruct (pipel i); reflexivity).
+        destruct a.
+        { (* a recipient accepted: DATA follows *)
+          assert (Hdata : forall x b, is_msg_letter x = true ->
+                    (N.eqb L_K x = true ->
+                       match reply_code (reply_at (n + 2) (i_script i)) with Some c0 => is_2xx c0 | None => false end = true) ->
+                    spec_letters i (ls ++ [x]) (env_sent i n ++ main_tail i (Some b) ++ q) = true).
+          { intros x b Hx HK. apply spec_letters_intro.
+            - exact F.
+            - cbn [forallb]. rewrite Hx. reflexivity.
+            - cbn [length]. constructor.
+            - intros H. apply app_eq_nil in H as [_ H]. discriminate.
+            - exact Lle.
+            - right; exact Hacc.
+            - exact M1.
+            - intros _. reflexivity.
+            - cbn [existsb]. rewrite orb_false_r. intros H. split; [apply HK; exact H|]. split; [exact L|symmetry; exact A].
+            - destruct (Hjj n Hjn) as [J1 J2]. apply cmds_env; auto;
+                try (intros _; split; [symmetry; exact A|exact Hjn]). }
+          unfold ref_data. destruct rest' as [|[l| | | | |] rest''];
+            try (apply Hdata; [apply Zmsg|rewrite ZK; discriminate]).
+          destruct (line_code l) as [c1|] eqn:El; [|apply Hdata; [apply Zmsg|rewrite ZK; discriminate]].
+          destruct (Nat.eqb c1 354) eqn:E354.
+          2: { apply Hdata; destruct (Nat.leb 500 c1); try reflexivity; discriminate. }
+          apply Nat.eqb_eq in E354. subst c1.
+          (* the reply to DATA is reply n+1; outside class multiline_354 it is the single line l *)
+          assert (R0 : reply_at n rest = take_reply (EvLine l :: rest'')).
+          { pose proof (R 0) as R0'. rewrite Nat.add_0_r in R0'. exact R0'. }
+          assert (R1 : reply_at (n + 1) (i_script i) = take_reply (EvLine l :: rest'')).
+          { rewrite Nat.add_1_r. cbn [reply_at]. rewrite ET. exact R0. }
+          rewrite R1, (take_reply_line l rest'' 354 El) in Hml354.
+          assert (Hnc : is_cont l = false).
+          { unfold cont_rest in Hml354. destruct (is_cont l); [|reflexivity].
+            destruct (skip_cont rest''); cbn in Hml354; discriminate. }
+          assert (R2 : reply_at (n + 2) (i_script i) = take_reply rest'').
+          { replace (n + 2) with (S (n + 1)) by (clear; lia). cbn [reply_at]. rewrite ET. rewrite R.
+            cbn [reply_at]. rewrite (take_reply_line l rest'' 354 El). unfold cont_rest. rewrite Hnc. reflexivity. }
+          unfold dot_letters. destruct (take_reply rest'') as [c2 m2 rest2| |c2] eqn:ED.
+          - apply Hdata; [apply dot_letter_is_msg|]. rewrite dot_letter_K, R2. cbn [reply_code]. auto.
+          - apply Hdata; [apply Zmsg|rewrite ZK; discriminate].
+          - apply Hdata; [apply dot_letter_is_msg|]. rewrite dot_letter_K, R2. cbn [reply_code]. auto. }
+        { (* every recipient refused *)
+          rewrite <- (app_nil_r ls). apply spec_letters_intro.
+          - exact F.
+          - reflexivity.
+          - cbn [length]. constructor. constructor.
+          - intros H. apply app_eq_nil in H as [H _]. contradiction.
+          - exact Lle.
+          - right; exact Hacc.
+          - exact M1.
+          - rewrite <- A. intros [H|H]; [discriminate|contradiction].
+          - cbn [existsb]. discriminate.
+          - destruct (Hjj n Hjn) as [J1 J2]. apply cmds_env; auto; try (intros H; congruence). }
+      * destruct HR as (D & rl & ml & -> & F & M & L & Hml).
+        assert (M1 : letters_match_from 1 (i_script i) rl = true) by (rewrite (lm_from_S rl 0 _ c m rest ET); exact M).
+        assert (Lle : length rl <= n) by (clear - L D; lia).
+        assert (J1 : length rl <= (if pipel i then n else S d)) by (destruct (pipel i); [exact Lle|exact L]).
+        assert (J2 : (if pipel i then n else S d) <= n) by (destruct (pipel i); [constructor|clear - D; lia]).
+        apply spec_letters_intro.
+        { exact F. }
+        { destruct Hml as [->|(-> & _)]; reflexivity. }
+        { destruct Hml as [->|(-> & _)]; cbn [length]; repeat constructor. }
+        { destruct Hml as [->|(-> & Hr & _)]; [intros H; apply app_eq_nil in H as [_ H]; discriminate|].
+          rewrite app_nil_r. exact Hr. }
+        { exact Lle. }
+        { right; exact Hacc. }
+        { exact M1. }
+        { destruct Hml as [->|(-> & Hr & Hacc')]; [reflexivity|]. cbn [orb] in Hacc'. rewrite Hacc'.
+          intros [H|H]; [discriminate|contradiction]. }
+        { destruct Hml as [->|(-> & _)]; cbn [existsb]; [rewrite ZK|]; discriminate. }
+        { apply cmds_env; auto; try (intros H; congruence). }
+    + (* MAIL FROM refused *)
+      assert (Hnodup : pipel i && negb (whole_replies n rest) = false).
+      { destruct (pipel i); [|reflexivity]. cbn [andb] in *.
+        destruct (Nat.eqb_spec n 0); [contradiction|]. cbn [negb andb] in Hdup. exact Hdup. }
+      rewrite Hnodup. cbn [app]. destruct (mail_letter_is_msg c E2) as [H1 H2].
+      apply spec_msg_only; auto; destruct (pipel i); auto.
+  - apply spec_msg_only; auto using Zmsg, ZK; destruct (pipel i); auto.
+  - destruct (is_2xx c) eqn:E2.
+    + apply spec_msg_only; auto using Zmsg, ZK; destruct (pipel i); auto.
+    + destruct (mail_letter_is_msg c E2) as [H1 H2]. apply spec_msg_only; auto; destruct (pipel i); auto.
+Qed.
